@@ -537,6 +537,38 @@ Definition tr_als_sampled_prog_gen (inplace : bool) (c : cfg) : prog :=
          [("*", F_)].
 Definition tr_als_sampled_prog := tr_als_sampled_prog_gen true.
 
+(* tensor_train / tensor_train_matrix / tensor_ring (_tt.py, _tr_svd.py): the SVD chain.  vT = the current unfolding, vU = U and V of its SVD (S is
+   their real type), vF = the factors.  unfolding = reshape(input); per mode: U, S, V = svd_interface(unfolding, n_eigenvecs); factors[k] = reshape(U);
+   unfolding = reshape(S, (-1, 1)) * V; the last factor is the reshaped remaining unfolding *)
+Definition svd_chain_prog (c : cfg) : prog :=
+  mkprog ([(vT, In_)] ++ svd_stmts T_ false ++ [(vF, U_); (vT, Op (RealOf U_) U_)])
+         (svd_stmts T_ false ++ [(vF, Op F_ U_); (vT, Op (RealOf U_) U_)])
+         [("*", F_); ("*", T_)].
+
+(* tensor_ring_als (_tr_als.py): tr_decomp = random_tr(shape, rank, **context(tensor)); per mode: design_mat = reshape(chain of the other cores
+   by tensordot); sol = lstsq(design_mat, tensor_unf)[0]  (or solve(design^T design, design^T tensor_unf)); tr_decomp[dim] = transpose(reshape(sol)) *)
+Definition tr_als_prog (c : cfg) : prog :=
+  mkprog [(vT, In_); (vF, ctx)]
+         [(vX, Op F_ F_); (vF, Op F_ (Op (Op X_ X_) (Op X_ T_)))]
+         [("*", F_)].
+
+(* parafac_power_iteration / symmetric_parafac_power_iteration (_cp_power.py, _symmetric_cp.py): per component power_iteration:
+   factors = tl.tensor(np.random.random_sample(s), **context(tensor)); factor = multi_mode_dot(tensor, factors, skip=mode) / norm(factor);
+   eigenval = multi_mode_dot(tensor, factors); deflated = tensor - outer(factors) * eigenval; weights = stack(eigenvals), factors = stack(eigenvecs) *)
+Definition power_prog (c : cfg) : prog :=
+  mkprog [(vT, In_); (vF, ctx); (vW, Op T_ F_)]
+         [(vF, Into In_ bare); (vF, Div (Op T_ F_) (norm (Op T_ F_))); (vW, Op W_ (Op T_ F_)); (vT, Op T_ (Op F_ (Op T_ F_)))]
+         [("*", W_); ("*", F_)].
+
+(* svd_compress_tensor_slices (preprocessing.py): a slice that needs no compression is returned as it is; otherwise U, s, Vh = svd_interface(slice);
+   score = transpose(s * transpose(Vh)), loading = U *)
+Definition compress_prog (c : cfg) : prog :=
+  mkprog ([(vT, In_)] ++ svd_stmts T_ false) [] [("*", T_); ("*", Op (RealOf U_) U_); ("*", U_)].
+
+(* higher_order_moment (tenalg/*/moments.py): moment = batched_outer([moment, tensor]) (order - 1 times); mean(moment, axis=0) *)
+Definition moment_prog (c : cfg) : prog :=
+  mkprog [(vT, In_); (vX, T_)] [(vX, Op X_ T_)] [("*", ToFloat X_)].
+
 (* parafac2 (_parafac2.py).  vT = the slices, vF = A, B, C (one variable), vC = projections, vS = projected tensor.
    init 'random': random_parafac2(.., **context): projections = qr(tl.tensor(rng, **context)), random_cp(.., **context);
    init 'svd': A = tl.ones(..., **context), B = tl.eye(rank, **context), C = svd_interface(unfolded)[0], weights None
@@ -638,6 +670,11 @@ Definition skeleton_v (mc : bool) (c : cfg) : prog :=
   | FPermute => mkprog [(vT, In_)] [] [("weights", Op T_ T_); ("factors", Op T_ T_); ("out1", ints)]  (* cp_permute_factors: (cp tensors, permutations) *)
   | FFlipSign => mkprog [(vT, In_)] [] [("weights", RealOf T_); ("factors", Op T_ (ctx_of T_))]  (* weights = abs(weights) *)
   | FCmtf => cmtf_prog c
+  | FSvdChain => svd_chain_prog c
+  | FTrAls => tr_als_prog c
+  | FPower => power_prog c
+  | FCompress => compress_prog c
+  | FMoment => moment_prog c
   | FTrAlsSampled => tr_als_sampled_prog c
   | FMaskMul => mask_mul_prog false (c_mask c) (c_alt c)       (* the code before ba7a532 *)
   | FMaskMulCast => mask_mul_prog true (c_mask c) (c_alt c)    (* the code since ba7a532 *)
